@@ -308,7 +308,8 @@ ADDED3 = {
            'first PDU), release collision on the acceptor side, abort by the requesting user.',
     'C04': ' The cells whose action closes the transport connection without writing to it, executed on a connection the '
            'peer has already reset (shutdown() fails with ENOTCONN).',
-    'C07': ' The indication must be complete at the moment it is queued for the user\'s thread (data set attached, file '
+    'C07': ' Peer maxima of 7..16 octets (the command set alone becomes up to 116 fragments), five groupings.'
+           ' The indication must be complete at the moment it is queued for the user\'s thread (data set attached, file '
            'rewound): the queue stand-in snapshots the message inside put().',
     'C13': ' The association ends (close / reset / abort / stop request) behind 1..100 indications nobody reads.'
            ' Disconnection between any two local steps (after the provider has written g PDUs, g symbolic, close / reset); a '
@@ -320,9 +321,11 @@ ADDED3 = {
            'reason) carry that source and reason.',
     'C15': ' The application handler may close the file it is handed (symbolic); handler statuses include legal codes the '
            'library has no table entry for.',
-    'C16': ' The form in which the application yields each pending status (Status with / without response type, plain int, '
+    'C16': ' One of the matches may be an EMPTY identifier (zero octets) at a symbolic position.'
+           ' The form in which the application yields each pending status (Status with / without response type, plain int, '
            'module constant) is a symbolic choice per match.',
-    'C17': ' C-MOVE with the REAL storage user on the sub-association and the request\'s message id symbolic over the whole '
+    'C17': ' C-FIND responses also under the lagging provider-thread schedule.'
+           ' C-MOVE with the REAL storage user on the sub-association and the request\'s message id symbolic over the whole '
            '16-bit range: every C-STORE-RQ must be encodable and every request answered.',
     'C20': ' The accept loop of the serving entity (verify_request) admits a connection whose peer has sent 0..all octets of '
            'its request and then stays silent without reading from it, blocking on it or changing its time-out. No requester '
